@@ -114,6 +114,13 @@ Definition unjoin_scalar (sh x : arr) : res (arr * arr) :=
   match ash sh, ash x, adata x with
   | [O], [S n], e :: d => Ok (Arr (aty x) [] [e], Arr (aty x) [n] d)
   | [O], [O], _ => Err
+  | [], [n], d =>
+      (* `push k, UnJoinShape` (JoinPat with count k > 1): the first k elements as a list, and the rest *)
+      match adata sh with
+      | [ENum k] => if ((0 <=? k) && (k <=? Z.of_nat n))%Z
+                    then Ok (Arr (aty x) [Z.to_nat k] (firstn (Z.to_nat k) d), Arr (aty x) [(n - Z.to_nat k)%nat] (skipn (Z.to_nat k) d))
+                    else Err
+      | _ => Unspec end
   | _, _, _ => Unspec end.
 
 (** UnJoin (°⊂) on a list: its first element and the rest *)
@@ -243,8 +250,11 @@ Fixpoint mono1 (l : list tn) : bool :=
 (** [cinv fixed fuel f]: the inverse the engine emits for the sequence f (reversal of the pieces).
     [fixed = false] is the engine BEFORE commit 8f54207: JoinPat's invert_inner put the inverse of a
     dipped function that precedes a join after the un-join WITHOUT the dip (un.rs:877-905 at b634517);
-    [fixed = true] is the current engine: the dip is kept when the dipped function is join-free with a
-    balanced inverse (modelled for [mono1] functions; other dipped functions are outside the model). *)
+    [fixed = true] is the current engine (commits 2e21ff6, 6d27c00): every dipped piece before a join is
+    inverted as a dip and the pieces' inverses are applied in reverse order - the general rule of
+    sequences.  (Not modelled: a bare `⊙⊂` link of a chain is inverted as `⊙(1 UnJoinShape)`, and pieces
+    with unbalanced inverses turn the un-join into `k UnJoinShape`; on such templates the validator
+    reports "differs", never "validated".)  The intermediate engine of 8f54207 is [inv_8f5] below. *)
 Fixpoint cinv (fixed : bool) (fuel : nat) (f : list tn) : option (list tn) :=
   match fuel with O => None | S fuel =>
   match f with
@@ -258,7 +268,7 @@ Fixpoint cinv (fixed : bool) (fuel : nat) (f : list tn) : option (list tn) :=
       match rest with
       | y :: rest' =>
           if is_joinb y then
-            if fixed then (if mono1 g then generic else None)
+            if fixed then generic
             else obind (cinv fixed fuel g) (fun gi => obind (cinv fixed fuel rest') (fun r => Some (r ++ TP P_UnJoin :: gi)))
           else generic
       | [] => generic end
@@ -273,6 +283,48 @@ Fixpoint cinv (fixed : bool) (fuel : nat) (f : list tn) : option (list tn) :=
       obind (cinv fixed fuel g) (fun gi => obind (cinv fixed fuel h) (fun hi =>
         obind (cinv fixed fuel rest) (fun r => Some (r ++ [TBracket o a gi o' a' hi]))))
   | _ => None end end.
+
+(** The engine AT commit 8f54207 for `before ⊂` (un.rs JoinPat, last branch, as of that commit):
+    the pieces of [before] - maximal dip-free segments and dips - are inverted one by one and
+    concatenated in FORWARD order; a dipped function keeps its dip only if it is join-free with a
+    balanced inverse ([mono1]), one that contains a join is flattened; the un-join takes
+    1 + (outputs - arguments of the result) leading elements.  Transcribed for dip-free dipped functions. *)
+Definition is_dipb (x : tn) : bool := match x with TDip _ | TDipN _ _ => true | _ => false end.
+Fixpoint span_nondip (l : list tn) : list tn * list tn :=
+  match l with
+  | [] => ([], [])
+  | x :: r => if is_dipb x then ([], l) else let p := span_nondip r in (x :: fst p, snd p) end.
+Fixpoint tnet_f (fuel : nat) (l : list tn) : option Z :=
+  match fuel with O => None | S fuel =>
+  match l with
+  | [] => Some 0%Z
+  | x :: r =>
+      obind (match x with
+             | TPush _ => Some 1%Z
+             | TP p => match p with
+                       | P_Identity | P_Flip | P_Neg | P_Not | P_Reverse | P_Box | P_UnBox | P_Fix | P_UnFix => Some 0%Z
+                       | P_Couple | P_Add | P_Sub | P_Rotate | P_AntiRotate | P_Join | P_Pop => Some (-1)%Z
+                       | P_UnCouple | P_UnJoin | P_Dup => Some 1%Z
+                       | _ => None end
+             | TDip g => tnet_f fuel g
+             | _ => None end) (fun a => obind (tnet_f fuel r) (fun b => Some (a + b)%Z)) end end.
+Definition tnet (l : list tn) : option Z := tnet_f (S (lsize l)) l.
+Fixpoint inner_8f5 (fuel : nat) (l : list tn) : option (list tn) :=
+  match fuel with O => None | S fuel =>
+  match l with
+  | [] => Some []
+  | TDip g :: r =>
+      if existsb is_dipb g then None else
+      obind (cinv true (S (lsize g)) g) (fun gi => obind (inner_8f5 fuel r) (fun rest =>
+        if mono1 g then Some (TDip gi :: rest)
+        else if existsb is_joinb g then Some (gi ++ rest) else None))
+  | _ =>
+      let p := span_nondip l in
+      obind (cinv true (S (lsize (fst p))) (fst p)) (fun si => obind (inner_8f5 fuel (snd p)) (fun rest => Some (si ++ rest)))
+  end end.
+Definition inv_8f5 (before : list tn) : option (list tn) :=
+  obind (inner_8f5 (S (length before)) before) (fun bi => obind (tnet bi) (fun k =>
+    Some ((if (k <=? 0)%Z then [TP P_UnJoin] else [TPush (k + 1); TP P_UnJoinShape]) ++ bi))).
 
 (** 0 = the real inverse is the one the model derives; 1 = it differs; 2 = outside the catalogue model *)
 Definition check_un_code (f g : list tn) : N :=
